@@ -5591,7 +5591,14 @@ func (a *Agent) handleSleepCommand(peerID identity.AgentID, frame *protocol.Fram
 		return
 	}
 
-	// Process through flooder for deduplication and forwarding
+	a.applySleepCommand(peerID, cmd)
+}
+
+// applySleepCommand runs a decoded sleep command through the flooder and, if it
+// is new and passes verification, enters sleep mode. Shared by SLEEP_COMMAND
+// frames and commands delivered inside QUEUED_STATE.
+func (a *Agent) applySleepCommand(peerID identity.AgentID, cmd *protocol.SleepCommand) {
+	// Process through flooder for verification, deduplication and forwarding
 	if !a.flooder.HandleSleepCommand(peerID, cmd) {
 		return
 	}
@@ -5620,7 +5627,14 @@ func (a *Agent) handleWakeCommand(peerID identity.AgentID, frame *protocol.Frame
 		return
 	}
 
-	// Process through flooder for deduplication and forwarding
+	a.applyWakeCommand(peerID, cmd)
+}
+
+// applyWakeCommand runs a decoded wake command through the flooder and, if it
+// is new and passes verification, wakes the agent. Shared by WAKE_COMMAND
+// frames and commands delivered inside QUEUED_STATE.
+func (a *Agent) applyWakeCommand(peerID identity.AgentID, cmd *protocol.WakeCommand) {
+	// Process through flooder for verification, deduplication and forwarding
 	if !a.flooder.HandleWakeCommand(peerID, cmd) {
 		return
 	}
@@ -5706,20 +5720,13 @@ func (a *Agent) handleQueuedState(peerID identity.AgentID, frame *protocol.Frame
 		a.flooder.HandleNodeInfoAdvertise(peerID, nodeInfo.OriginAgent, nodeInfo.Sequence, nodeInfo.EncInfo, nodeInfo.SeenBy)
 	}
 
-	// Check for sleep/wake commands in queued state
-	if state.SleepCmd != nil && a.sleepMgr != nil {
-		a.logger.Info("entering sleep mode from queued command")
-		if err := a.sleepMgr.Sleep(); err != nil {
-			a.logger.Error("failed to enter sleep mode from queued command",
-				logging.KeyError, err)
-		}
+	// Sleep/wake commands in queued state take the same path as flooded ones,
+	// so signature, timestamp window and deduplication apply here too.
+	if state.SleepCmd != nil {
+		a.applySleepCommand(peerID, state.SleepCmd)
 	}
-	if state.WakeCmd != nil && a.sleepMgr != nil {
-		a.logger.Info("waking from queued command")
-		if err := a.sleepMgr.Wake(); err != nil {
-			a.logger.Error("failed to wake from queued command",
-				logging.KeyError, err)
-		}
+	if state.WakeCmd != nil {
+		a.applyWakeCommand(peerID, state.WakeCmd)
 	}
 }
 
